@@ -120,11 +120,11 @@ class C02(Check):
     driver = "drv_c02"
     theorems = ["Pox.C02.ctl_framing", "Pox.C02.ctl_prefix", "Pox.C02.sw_framing", "Pox.C02.sw_prefix", "Pox.C02.slice_framing", "Pox.C02.ctl_feed_no_disconnect",
                 "Pox.C02.ctl_handler_outcome", "Pox.C02.sw_handler_outcome", "Pox.C02.ctl_framing_handlers", "Pox.C02.sw_framing_handlers",
-                "Pox.C02.ctl_eof", "Pox.C02.sw_eof"]
+                "Pox.C02.ctl_eof", "Pox.C02.sw_eof", "Pox.C02.ctl_framing_nicira", "Pox.C02.ctl_prefix_nicira", "Pox.C02.nx_eager_lookahead_breaks"]
     anchors = [("pox/openflow/of_01.py", "Connection.read"), ("pox/datapaths/switch.py", "OFConnection.read"),
                ("pox/lib/ioworker/__init__.py", "IOWorker._do_recv"), ("pox/lib/ioworker/__init__.py", "IOWorker._push_receive_data"),
                ("pox/lib/ioworker/__init__.py", "IOWorker.peek"), ("pox/lib/ioworker/__init__.py", "IOWorker.consume_receive_buf")]
-    trusted_base = ["model Model/Framing.lean + Model/FramingIO.lean (handler outcome, end of stream) hand-written from of_01.Connection.read, OFConnection.read and IOWorker._do_recv; tied by this correspondence run",
+    trusted_base = ["model Model/Framing.lean + Model/FramingIO.lean (handler outcome, end of stream, replaced table entry nxVendor from nicira._unpack_nx_vendor) hand-written from of_01.Connection.read, OFConnection.read and IOWorker._do_recv; tied by this correspondence run",
                     "decoder abstracted as U (consumes exactly a well-formed message: that is C01); the driver instantiates U with the length-driven slice decoder (theorem slice_framing)"]
     assumptions = ["message handlers do not disconnect the connection in the middle of a read (then Connection.read stops dispatching: that path is C09's)", "a chunk is what recv() handed out during one read(); an empty recv is the end of the stream (connEnd), as is a recv that raises once select reported the socket readable",
                    "recv never returns more than the bytes asked for", "message handlers raise Exception subclasses only (a BaseException such as KeyboardInterrupt is not survived by the switch-side loop)"]
@@ -134,14 +134,20 @@ class C02(Check):
                   "every segmentation (unbounded), both read loops deliver exactly the messages in order, once each, holding an incomplete tail. The model is hand-written; "
                   "each run re-checks it against the real read loops on exhaustive 1-cuts/2-cuts and random segmentations of streams of all 22 message types. "
                   "ctl_handler_outcome/sw_handler_outcome/*_framing_handlers: the same for every outcome (returned/raised) of every message handler; ctl_eof/sw_eof: when the stream "
-                  "ends, exactly the complete messages among the bytes read so far have been delivered.")
+                  "ends, exactly the complete messages among the bytes read so far have been delivered. ctl_framing_nicira/ctl_prefix_nicira: the same with the OFPT_VENDOR entry "
+                  "of the controller's table replaced by the Nicira one (model nxVendor: vendor id first, subtype only for a Nicira message); nx_eager_lookahead_breaks: the entry "
+                  "that reads both at once makes framing depend on the segmentation.")
     level_note = ("Trusted: Lean kernel, axioms propext/Classical.choice/Quot.sound, the hand-written model Model/Framing.lean and the harness (scripted socket, slice recorder). "
                   "Decoders are abstracted (their own correctness is C01). Python-level atomicity/GIL not involved (single-threaded).")
     rule = ("case = (side, 1..30 valid messages of the 22 types from the library's own classes, cut positions); corpus = every 1-cut of two fixed streams, "
             "2-cuts near header boundaries, 1-byte dribble, cuts at 2047/2048/2049, bursts of 65..700 messages in one read; "
             "the handler of every single message / of several messages raising (12 spellings), a real SoftwareSwitch as the switch-side consumer; "
             "stream sockets that end (EOF and 7 error spellings) right behind the last bytes or a select round later, at every byte position of a short stream, "
-            "with 1..120 recv() results queued at once, next to a companion connection that goes on; non-trivial = at least one cut falls strictly inside a message")
+            "with 1..120 recv() results queued at once, next to a companion connection that goes on; "
+            "case parameter cfg = the configuration that decides the decode path (default / openflow.nicira launched: the tables of unpackers are taken from fresh "
+            "connections of either side before and after the launch; NXSoftwareSwitch as a switch-side consumer); every message type at its minimal legal length "
+            "(8-byte header-only messages, 12..16-byte vendor messages of other vendors and of Nicira, empty lists, the Nicira extension's own messages) first, in the "
+            "middle and last in a stream, the read ending 0..3 bytes behind it / one byte short of it / with nothing behind it; non-trivial = at least one cut falls strictly inside a message")
 
     def setup(self):
         poxenv.boot()
@@ -183,6 +189,7 @@ class C02(Check):
         msgs = []
         while len(msgs) < n:
             spec = ofgen.message(rng, small=small)
+            if spec["cls"] == "ofp_vendor_generic" and spec["kw"]["vendor"] == self.nx.NX_VENDOR_ID: continue   # random bytes under the Nicira id are not a Nicira message
             try:
                 b = ofgen.build(spec).pack()
             except Exception:
@@ -245,7 +252,87 @@ class C02(Check):
                 cases.append({"side": side, "msgs": tiny[:n], "cuts": []})
                 L = sum(len(m) // 2 for m in tiny[:n])
                 cases.append({"side": side, "msgs": tiny[:n], "cuts": [L - 3]})
-        return cases + self._corpus_handlers() + self._corpus_stream_end()
+        cases = cases + self._corpus_handlers() + self._corpus_stream_end()
+        # every 4th case of the families above once more under the non-default configuration
+        cases += [dict(c, cfg="nicira") for c in cases[::4]]
+        return cases + self._corpus_minimal()
+
+    # -- every message type at its MINIMAL legal length (header-only messages, a 12-byte vendor message, empty lists, ...),
+    #    the vendor messages around the sizes of the vendor header (12) and of the Nicira header (16), and the Nicira
+    #    extension's own messages: a decoder that looks one field too far reads into the neighbour or past the buffer
+    def _minimal(self):
+        import struct
+        of, nx = self.of, self.nx
+        NXV = nx.NX_VENDOR_ID
+        ms = [of.ofp_hello(), of.ofp_error(type=of.OFPET_BAD_REQUEST, code=of.OFPBRC_BAD_VENDOR), of.ofp_echo_request(), of.ofp_echo_reply(),
+              of.ofp_vendor_generic(vendor=0x005c16c7), of.ofp_vendor_generic(vendor=0), of.ofp_vendor_generic(vendor=0xffffffff),
+              of.ofp_vendor_generic(vendor=NXV + 1), of.ofp_vendor_generic(vendor=NXV << 16), of.ofp_vendor_generic(vendor=0x20230000),
+              of.ofp_vendor_generic(vendor=0x00002321, data=b"\x00"), of.ofp_vendor_generic(vendor=0x0000ace0, data=b"\x00\x00"),
+              of.ofp_vendor_generic(vendor=0x00000ace, data=b"\x00\x00\x00"), of.ofp_vendor_generic(vendor=0x005c16c7, data=struct.pack("!L", nx.NXT_ROLE_REPLY)),
+              of.ofp_features_request(), of.ofp_features_reply(), of.ofp_get_config_request(), of.ofp_get_config_reply(), of.ofp_set_config(),
+              of.ofp_packet_in(), of.ofp_flow_removed(), of.ofp_port_status(), of.ofp_packet_out(), of.ofp_flow_mod(), of.ofp_port_mod(),
+              of.ofp_stats_request(type=of.OFPST_DESC), of.ofp_stats_request(type=of.OFPST_TABLE), of.ofp_stats_request(body=of.ofp_flow_stats_request()),
+              of.ofp_stats_request(body=of.ofp_aggregate_stats_request()), of.ofp_stats_request(body=of.ofp_port_stats_request()),
+              of.ofp_stats_request(body=of.ofp_queue_stats_request()), of.ofp_stats_request(type=of.OFPST_VENDOR, body=struct.pack("!L", 0x005c16c7)),
+              of.ofp_stats_reply(type=of.OFPST_FLOW, body=[]), of.ofp_stats_reply(type=of.OFPST_TABLE, body=[]), of.ofp_stats_reply(type=of.OFPST_PORT, body=[]),
+              of.ofp_stats_reply(type=of.OFPST_QUEUE, body=[]), of.ofp_stats_reply(body=of.ofp_aggregate_stats()), of.ofp_stats_reply(body=of.ofp_desc_stats()),
+              of.ofp_stats_reply(type=of.OFPST_VENDOR, body=struct.pack("!L", NXV)),
+              of.ofp_barrier_request(), of.ofp_barrier_reply(), of.ofp_queue_get_config_request(), of.ofp_queue_get_config_reply(),
+              # the Nicira extension's messages (each at its minimal length) and a bare Nicira header of a subtype nobody knows
+              nx.nx_role_reply(), nx.nx_role_request(), nx.nx_packet_in_format(), nx.nx_flow_mod_table_id(), nx.nx_flow_mod(), nx.nx_async_config(),
+              nx.nxt_packet_in(buffer_id=5), nx.nxt_packet_in(buffer_id=0xffffffff, data=b"\x01\x02\x03"),
+              of.ofp_vendor_generic(vendor=NXV, data=struct.pack("!L", 0x7f)), of.ofp_vendor_generic(vendor=NXV, data=struct.pack("!LB", nx.NXT_SET_FLOW_FORMAT if hasattr(nx, "NXT_SET_FLOW_FORMAT") else 12, 2))]
+        out = []
+        for i, m in enumerate(ms):
+            m.xid = 0x1000 + i
+            out.append(m.pack().hex())
+        return out
+
+    def _corpus_minimal(self):
+        of = self.of
+        cases, mins = [], self._minimal()
+        pre = [of.ofp_echo_request(xid=101, body=b"ab").pack().hex()]
+        posts = ([of.ofp_barrier_reply(xid=102).pack().hex(), of.ofp_echo_reply(xid=103, body=b"tail!").pack().hex()],
+                 [of.ofp_hello(xid=104).pack().hex()])
+        P = len(pre[0]) // 2
+        def add(side, cfg, msgs, cuts, **kw):
+            L = sum(len(m) // 2 for m in msgs)
+            c = {"side": side, "msgs": msgs, "cuts": sorted(set(x for x in cuts if 0 < x < L)), "cfg": cfg}; c.update(kw)
+            cases.append(c)
+        for side in ("ctl", "sw"):
+            for cfg in CFGS:
+                for k, m in enumerate(mins):
+                    n = len(m) // 2; post = posts[k % 2]
+                    # first in the stream / in the middle: the read ends 0..3 bytes behind it, one byte short of it, it is alone in a read
+                    for d in (0, 1, 2, 3): add(side, cfg, [m] + post, [n + d])
+                    add(side, cfg, [m] + post, [])
+                    add(side, cfg, [m] + post, [n - 1])
+                    for d in (0, 1, 2, 3): add(side, cfg, pre + [m] + post, [P + n + d])
+                    add(side, cfg, pre + [m] + post, [P, P + n])
+                    add(side, cfg, pre + [m] + post, [P + 3, P + n + 3])
+                    add(side, cfg, pre + [m] + post, range(1, P + n + 16))
+                    # last in the stream: nothing follows it in the buffer whatever the cuts
+                    add(side, cfg, pre + [m], [])
+                    add(side, cfg, pre + [m], [P])
+                    add(side, cfg, pre + [m], [P + 3])
+                    add(side, cfg, [m], [])
+                    add(side, cfg, pre + [m], [], io={"gaps": [], "end": "eof"})
+                # all of them in one stream, from three starting points
+                for r in (0, len(mins) // 3, 2 * len(mins) // 3):
+                    msgs = mins[r:] + mins[:r]; e = self._ends(msgs); L = e[-1]
+                    for d in (0, 1, 2, 3, 4, 7, 8):
+                        add(side, cfg, msgs, [x + d for x in e])
+                    add(side, cfg, msgs, [x - 1 for x in e]); add(side, cfg, msgs, [])
+                    add(side, cfg, msgs, range(37, L, 37)); add(side, cfg, msgs, range(1, L))
+                    add(side, cfg, msgs, e, io={"gaps": []}); add(side, cfg, msgs, [x + 2 for x in e], io={"gaps": [], "end": "eof"})
+                    add(side, cfg, msgs, e, io={"gaps": "all", "end": "ECONNRESET", "end_gap": True, "trunc": 3})
+                    add(side, cfg, msgs, e, **{"raise": list(range(0, len(msgs), 3)), "exc": "KeyError"})
+                    add(side, cfg, msgs, [x + 3 for x in e], swap=4, other={"msgs": self._fixed_stream(), "cuts": [3, 9, 20, 41]})
+                    if side == "sw":
+                        for consumer in ("switch", "nxswitch"):
+                            add(side, cfg, msgs, e, consumer=consumer); add(side, cfg, msgs, [x + 1 for x in e], consumer=consumer)
+                            add(side, cfg, msgs, [], consumer=consumer)
+        return cases
 
     @staticmethod
     def _ends(msgs):
@@ -352,6 +439,11 @@ class C02(Check):
         return cases
 
     def generate(self, rng, tier):
+        for i, case in enumerate(self._generate(rng, tier)):
+            if i % 3 == 2 and "cfg" not in case: case["cfg"] = "nicira"     # (no draw from rng: the streams of a seed stay what they were)
+            yield case
+
+    def _generate(self, rng, tier):
         n = 150 if tier == "quick" else 3000
         for _ in range(n):
             msgs = self._stream(rng, rng.choice([1, 2, 3, 5, rng.randint(1, 30), rng.randint(60, 200)]), small=rng.random() < 0.7)
@@ -392,6 +484,35 @@ class C02(Check):
                 case["other"] = {"msgs": m2, "cuts": c2, "io": io(L2, c2)}
                 if rng.random() < 0.4: case["other"]["raise"] = [rng.randint(0, len(m2) - 1)]
             yield case
+        mins = self._minimal()
+        for _ in range(200 if tier == "quick" else 4000):          # minimal-length messages among ordinary ones, reads ending just behind them
+            side = rng.choice(["ctl", "sw"])
+            k = rng.choice([1, 2, 3, 5, rng.randint(1, 12)])
+            msgs = [rng.choice(mins) if rng.random() < 0.6 else self._stream(rng, 1)[0] for _ in range(k)]
+            e = self._ends(msgs); L = e[-1]
+            cuts = set()
+            for x in e:
+                r = rng.random()
+                if r < 0.5: cuts.add(x + rng.choice([0, 0, 1, 2, 3]))
+                elif r < 0.6: cuts.add(x - rng.choice([1, 2, 4, 5]))
+            if rng.random() < 0.15: cuts |= set(rng.randint(1, max(1, L - 1)) for _ in range(rng.randint(1, 6)))
+            if rng.random() < 0.05: cuts = set(range(1, min(L, 600)))
+            cuts = sorted(c for c in cuts if 0 < c < L)
+            case = {"side": side, "msgs": msgs, "cuts": cuts, "cfg": rng.choice(CFGS)}
+            r = rng.random()
+            if r < 0.25:
+                case["io"] = {"gaps": rng.choice(["all", [], sorted(c for c in cuts if rng.random() < 0.5)])}
+                if rng.random() < 0.5: case["io"]["end"] = rng.choice(["eof", rng.choice(errs)]); case["io"]["end_gap"] = rng.random() < 0.3
+                if rng.random() < 0.3: case["io"]["trunc"] = rng.randint(0, min(L - 1, 20))
+            if rng.random() < 0.2:
+                case["raise"] = sorted(set(rng.randint(0, k - 1) for _ in range(rng.choice([1, 2, k])))); case["exc"] = rng.choice(names)
+            if side == "sw" and rng.random() < 0.2: case["consumer"] = rng.choice(["switch", "nxswitch"])
+            if rng.random() < 0.15: case["swap"] = rng.randint(0, k - 1)
+            if rng.random() < 0.15:
+                m2 = [rng.choice(mins) for _ in range(rng.randint(1, 4))]; e2 = self._ends(m2)
+                if "io" in case: case["other"] = {"msgs": m2, "cuts": e2[:-1], "io": {"gaps": rng.choice(["all", []])}}
+                else: case["other"] = {"msgs": m2, "cuts": [x + rng.randint(0, 3) for x in e2[:-1]]}
+            yield case
         if tier == "thorough":                                      # every 2-cut of short streams
             for _ in range(6):
                 msgs = self._stream(rng, 3)
@@ -403,6 +524,11 @@ class C02(Check):
 
     # -- implementation
     def impl(self, case):
+        import contextlib, io
+        with contextlib.redirect_stdout(io.StringIO()):     # the Nicira unpacker print()s for subtypes it has no class for
+            return self._impl(case)
+
+    def _impl(self, case):
         stream = b"".join(bytes.fromhex(m) for m in case["msgs"])
         chunks = segment(stream, case["cuts"], CAP[case["side"]])
         if case.get("io") is not None or (case.get("other") or {}).get("io") is not None:
@@ -425,7 +551,7 @@ class C02(Check):
         if case["side"] == "ctl":
             sock = ScriptSock()
             con = self.of_01.Connection(sock)
-            con.unpackers = [wrap(u) for u in con.unpackers]
+            con.unpackers = [wrap(u) for u in self._table(case, "ctl")]
             # "swap": the handler of the k-th message REBINDS the connection's handler table (as the end of the handshake does,
             # of_01._finish_connecting: con.handlers = ...) — every later message, in the same read too, belongs to the new table
             swap = case.get("swap")
@@ -437,7 +563,7 @@ class C02(Check):
                 after(c, m)
             con.handlers = [h_old] * 256
             if oth:
-                osock = ScriptSock(); ocon = self.of_01.Connection(osock)
+                osock = ScriptSock(); ocon = self.of_01.Connection(osock); ocon.unpackers = list(self._table(case, "ctl"))
                 ocon.handlers = [(lambda c, m: odelivered.append(bytes(m.pack()).hex()))] * 256
             for i, ch in enumerate(chunks):
                 sock.chunks.append(ch)
@@ -467,7 +593,7 @@ class C02(Check):
             sock = ScriptSock()
             w = loop.new_worker(sock)
             ofc = self.OFConnection(w)
-            ofc.unpackers = [wrap(u) for u in ofc.unpackers]
+            ofc.unpackers = [wrap(u) for u in self._table(case, "sw")]
             swap = case.get("swap")
             after = self._after(case, rec, self._consumer(case, ofc))
             def h_new(c, m): delivered.append(last[0].hex()); tables.append(1); after(c, m)
@@ -477,7 +603,7 @@ class C02(Check):
                 after(c, m)
             ofc.set_message_handler(h_old)
             if oth:
-                osock = ScriptSock(); ow = loop.new_worker(osock); oofc = self.OFConnection(ow)
+                osock = ScriptSock(); ow = loop.new_worker(osock); oofc = self.OFConnection(ow); oofc.unpackers = list(self._table(case, "sw"))
                 oofc.set_message_handler(lambda c, m: odelivered.append(bytes(m.pack()).hex()))
             g = loop.run(); next(g)
             def ofeed(ch):
@@ -518,8 +644,9 @@ class C02(Check):
         return after
 
     def _consumer(self, spec, ofc):
-        if spec.get("consumer") != "switch": return None
-        sw = self.SoftwareSwitch(dpid=7, name="c02", ports=2)
+        if spec.get("consumer") not in ("switch", "nxswitch"): return None
+        if spec["consumer"] == "switch": sw = self.SoftwareSwitch(dpid=7, name="c02", ports=2)
+        else: sw = self.NXSoftwareSwitch(dpid=7, name="c02", ports=0)     # (its constructor cannot add ports: it sends before it has a connection list)
         sw.set_connection(ofc)
         return sw
 
@@ -545,13 +672,13 @@ class C02(Check):
             swap = spec.get("swap")
             if side == "ctl":
                 con = c["obj"] = self.of_01.Connection(c["sock"])
-                con.unpackers = [wrap(u) for u in con.unpackers]
+                con.unpackers = [wrap(u) for u in self._table(case, "ctl")]
                 after = self._after(spec, c)
                 rebind = lambda conn, h: setattr(conn, "handlers", [h] * 256)
             else:
                 c["w"] = loop.new_worker(c["sock"])
                 con = c["obj"] = self.OFConnection(c["w"])
-                con.unpackers = [wrap(u) for u in con.unpackers]
+                con.unpackers = [wrap(u) for u in self._table(case, "sw")]
                 after = self._after(spec, c, self._consumer(spec, con))
                 rebind = lambda conn, h: conn.set_message_handler(h)
             def h_new(conn, m, c=c, after=after):
@@ -612,14 +739,14 @@ class C02(Check):
         if self._is_stream(case): return None          # the model is fed what recv() handed out per read(): model_request2
         stream = b"".join(bytes.fromhex(m) for m in case["msgs"])
         return {"side": case["side"], "chunks": [c.hex() for c in segment(stream, case["cuts"], CAP[case["side"]])],
-                "raising": self._raising(case)}
+                "raising": self._raising(case), "cfg": case.get("cfg") or "default"}
 
     def model_request2(self, case, obs):
         """stream-socket cases: one model chunk per read() of the implementation = the bytes recv() handed out during that
         read (however many recv() calls it made), then the end of the stream if the script has one"""
         if not self._is_stream(case): return None
         return {"side": case["side"], "chunks": obs["chunks"], "raising": self._raising(case, obs),
-                "end": bool((case.get("io") or {}).get("end"))}
+                "end": bool((case.get("io") or {}).get("end")), "cfg": case.get("cfg") or "default"}
 
     def _view_keys(self, case):
         # once the stream has ended the connection object is thrown away: its leftover buffer is nobody's business
@@ -697,7 +824,8 @@ class C02(Check):
                 or self._oracle_tables(case, obs))
 
     def finding_key(self, case, obs, failure):
-        return "%s:%s" % (case["side"], failure.split(",")[0][:40])
+        cfg = case.get("cfg") or "default"
+        return "%s%s:%s" % (case["side"], "" if cfg == "default" else "/" + cfg, failure.split(",")[0][:40])
 
     def nontrivial(self, case, obs):
         p, inner = 0, set()
@@ -713,7 +841,7 @@ class C02(Check):
                 c = dict(case); c["msgs"] = case["msgs"][:i] + case["msgs"][i + 1:]; yield c
         for i in range(len(case["cuts"])):
             c = dict(case); c["cuts"] = case["cuts"][:i] + case["cuts"][i + 1:]; yield c
-        for k in ("other", "swap", "consumer"):
+        for k in ("other", "swap", "consumer", "cfg"):
             if k in case:
                 c = dict(case); del c[k]; yield c
         for i in range(len(case.get("raise") or ())):
